@@ -61,6 +61,11 @@ def decVarint (b : Bytes) : Option (Nat × Bytes) :=
   | some (v, r) => if v < 2^64 then some (v, r) else none
   | none => none
 
+/-- `b.length < l`, evaluated in O(min l |b|) (a message with 10^5 fields is scanned in linear time) -/
+def shorter (b : Bytes) : Nat → Bool
+  | 0 => false
+  | l+1 => (b.drop l).isEmpty
+
 /-! ## wire fields -/
 
 inductive WireVal
@@ -98,10 +103,10 @@ def skipGroup : Nat → Nat → Bytes → Option Bytes
         | 0 => match decVarint r with
           | some (_, r') => skipGroup k num r'
           | none => none
-        | 1 => if r.length < 8 then none else skipGroup k num (r.drop 8)
-        | 5 => if r.length < 4 then none else skipGroup k num (r.drop 4)
+        | 1 => if shorter r 8 then none else skipGroup k num (r.drop 8)
+        | 5 => if shorter r 4 then none else skipGroup k num (r.drop 4)
         | 2 => match decVarint r with
-          | some (l, r') => if r'.length < l then none else skipGroup k num (r'.drop l)
+          | some (l, r') => if shorter r' l then none else skipGroup k num (r'.drop l)
           | none => none
         | 3 => match skipGroup k n2 r with
           | some r' => skipGroup k num r'
@@ -119,11 +124,11 @@ def decField (b : Bytes) : Option (Field × Bytes) :=
       | 0 => match decVarint r with
         | some (v, r') => some (⟨num, .varint v⟩, r')
         | none => none
-      | 1 => if r.length < 8 then none else some (⟨num, .i64 (r.take 8)⟩, r.drop 8)
+      | 1 => if shorter r 8 then none else some (⟨num, .i64 (r.take 8)⟩, r.drop 8)
       | 2 => match decVarint r with
-        | some (l, r') => if r'.length < l then none else some (⟨num, .len (r'.take l)⟩, r'.drop l)
+        | some (l, r') => if shorter r' l then none else some (⟨num, .len (r'.take l)⟩, r'.drop l)
         | none => none
-      | 5 => if r.length < 4 then none else some (⟨num, .i32 (r.take 4)⟩, r.drop 4)
+      | 5 => if shorter r 4 then none else some (⟨num, .i32 (r.take 4)⟩, r.drop 4)
       | 3 => match skipGroup (r.length + 1) num r with
         | some r' => some (⟨num, .group (r.take (r.length - r'.length))⟩, r')
         | none => none
@@ -171,12 +176,12 @@ def preflightAux : Nat → Bytes → Bool
         | 0 => match decVarint r with              -- VarintType
           | some (_, r') => preflightAux k r'
           | none => false
-        | 5 => if r.length < 4 then false else preflightAux k (r.drop 4)   -- Fixed32Type
-        | 1 => if r.length < 8 then false else preflightAux k (r.drop 8)   -- Fixed64Type
+        | 5 => if shorter r 4 then false else preflightAux k (r.drop 4)   -- Fixed32Type
+        | 1 => if shorter r 8 then false else preflightAux k (r.drop 8)   -- Fixed64Type
         | 2 => match decVarint r with              -- BytesType
           | some (l, r') =>
             if protoMaxFieldBytes < l then false
-            else if r'.length < l then false
+            else if shorter r' l then false
             else preflightAux k (r'.drop l)
           | none => false
         | _ => false                               -- "unsupported wire type"
